@@ -247,6 +247,31 @@ pub fn check_state(sim: &mut Sim, snap: &VerifSnapshot, m: Mon, ex: &mut Exercis
             }
         }
     }
+    if on(m, 16) {
+        // "treats the job as failed and its not-yet-started dependants as upstream-failed"
+        let mut blocked16 = vec![false; n];
+        for &j in g.topo().iter() {
+            if sim.res[j] == Res::Changed {
+                ex.hit("C16.changed-output-state");
+                let id = &g.jobs[j].id;
+                if !failed.contains(id) || !is_failure_state(st(j)) {
+                    v.push(viol("C16", "changed-not-failed", format!("{} changed its output but is not reported failed (state {:?})", id, st(j))));
+                }
+            }
+            if !sim.started[j] {
+                for u in g.ups(j) {
+                    if sim.res[u] == Res::Changed || blocked16[u] {
+                        blocked16[j] = true;
+                    }
+                }
+            }
+        }
+        for j in 0..n {
+            if blocked16[j] && ready.contains(&g.jobs[j].id) && !sim.aborted {
+                v.push(viol("C16", "dependant-offered", format!("{} is offered although an upstream Ephemeral failed by changing its output", g.jobs[j].id)));
+            }
+        }
+    }
     if on(m, 2) && !sim.aborted {
         for id in ready.iter() {
             let j = sim.idx(id);
@@ -493,6 +518,37 @@ pub fn terminal_checks(sim: &mut Sim, snap: &VerifSnapshot, m: Mon, ex: &mut Exe
                 }
             }
             Disp::Failed | Disp::AbortedRunning => {
+                if on(m, 16) && sim.res[j] == Res::Changed {
+                    // "records nothing for it"
+                    ex.hit("C16.changed-output-terminal");
+                    if nh.contains_key(&kj) || nh.contains_key(&kin) {
+                        v.push(viol("C16", "changed-has-record", format!("{} failed by changing its output but has own records {:?} / {:?}", id, nh.get(&kj), nh.get(&kin))));
+                    }
+                    for u in &ups {
+                        let k = format!("{}!!!{}", g.jobs[*u].id, id);
+                        if nh.get(&k) != cfg.hist.get(&k) {
+                            v.push(viol("C16", "changed-edge-record", format!("{} changed {:?} -> {:?} although {} failed by changing its output", k, cfg.hist.get(&k), nh.get(&k), id)));
+                        }
+                    }
+                    if !sim.aborted {
+                        let mut bl = vec![false; n];
+                        for &x in g.topo().iter() {
+                            if !sim.started[x] {
+                                for u in g.ups(x) {
+                                    if u == j || bl[u] {
+                                        bl[x] = true;
+                                    }
+                                }
+                            }
+                        }
+                        for x in 0..n {
+                            let exempt = g.jobs[x].kind == Kind::E && !refr.relevant[x];
+                            if bl[x] && disp[x] != Disp::UF && !exempt {
+                                v.push(viol("C16", "dependant-not-uf", format!("{} depends on {} (failed by changing its output) but is reported {:?}", g.jobs[x].id, id, disp[x])));
+                            }
+                        }
+                    }
+                }
                 if on(m, 8) {
                     ex.hit("C08.failed");
                     if nh.contains_key(&kj) || nh.contains_key(&kin) {
